@@ -5,6 +5,9 @@ package zzvrf
 // the replay runner through SchedHook.)
 
 var SchedHook func()
+
+// ClockSchedHook is called by the native clock hook before a reading is taken.
+var ClockSchedHook func()
 var ParHook func(fs []func())
 
 func schedPoint() {
@@ -27,3 +30,24 @@ var sched []int
 
 // SetSched installs the recorded thread schedule of a counterexample.
 func SetSched(s []int) { sched = s }
+
+// InterleaveHook is installed by the native replay scheduler.
+var InterleaveHook func(main, other func())
+
+// Interleave runs main; other runs to completion exactly once, either at one of
+// main's scheduling points or after main has finished (all placements are
+// explored by the executor; natively the recorded placement is replayed, and
+// without a recorded schedule other runs after main).
+func Interleave(main, other func()) {
+	if InterleaveHook != nil && len(sched) == 1 {
+		InterleaveHook(main, other)
+		return
+	}
+	main()
+	other()
+}
+
+var noSched []string
+
+// SetNoSched lists packages whose synchronisation calls are not scheduling points.
+func SetNoSched(p []string) { noSched = p }
